@@ -401,6 +401,7 @@ func genC09(e *emitter, tier string, seed uint64) map[string]interface{} {
 	if thorough {
 		nEnc = 3000
 	}
+	var prevBlock, prevCopy []byte
 	for i := 0; i < nEnc; i++ {
 		np := rg.intn(9)
 		if rg.intn(10) == 0 {
@@ -477,6 +478,13 @@ func genC09(e *emitter, tier string, seed uint64) map[string]interface{} {
 			md := &protocol.Metadata{Values: m}
 			out := md.MarshalValues(max)
 			idx := e.op(fmt.Sprintf("md.encode.map max=%d pairs=%s", max, ps), showBytes(out), "encode-map", len(pairs) > 0)
+			// a block returned earlier is the caller's: encoding another map must not change it
+			if prevBlock != nil && !bytes.Equal(prevBlock, prevCopy) {
+				e.fail(idx, "deterministic", fmt.Sprintf("a block of %d bytes returned by an earlier MarshalValues changed when the next map was encoded (it shares memory with a reused buffer)", len(prevCopy)))
+				prevBlock = nil
+			} else if len(out) > 0 {
+				prevBlock, prevCopy = out, append([]byte{}, out...)
+			}
 			// determinism: 8 encodings of the same map, and of a re-inserted copy, are byte-identical
 			for rep := 0; rep < 8; rep++ {
 				m2 := make(map[string]string, len(m))
